@@ -25,6 +25,10 @@ def build(rng, i):
     a = sp.proc(t3.Proc("p1", kind="cattok", ins=[("a", [(s, "out")])], outs=[("o", "{i:a}.p1"), ("o2", "{i:a}.p1b")], sleep=sleep))
     recs.append((sp.raw("REC %s %d %s" % (vlib.hx("rec_p1_o"), a, vlib.hx("o"))), a, "o"))
     recs.append((sp.raw("REC %s %d %s" % (vlib.hx("rec_p1_o2"), a, vlib.hx("o2"))), a, "o2"))
+    if i % 4 == 1:
+        # fan-out of one out-port to a fast and a slow consumer, buffers smaller than the stream, a pause between completions
+        # (the slow consumer's buffer is full at one send and has room again at a later one)
+        recs.append((sp.raw("REC %s %d %s" % (vlib.hx("rec_p1_o_slow%d" % rng.choice([40, 80, 150])), a, vlib.hx("o"))), a, "o"))
     if rng.random() < 0.7:
         b = sp.proc(t3.Proc("p2", kind="cat", ins=[("a", [(a, "o")])], outs=[("o", "{i:a}.p2")], sleep=sleep if rng.random() < 0.5 else None))
         recs.append((sp.raw("REC %s %d %s" % (vlib.hx("rec_p2_o"), b, vlib.hx("o"))), b, "o"))
@@ -37,7 +41,7 @@ def order_check(recs):
         if impl["rc"] != 0:
             return problems
         for (idx, node, port) in recs:
-            name = "rec_%s_%s" % (sp.nodes[node][1].name, port)
+            name = unhx(sp.nodes[idx][1].split()[1])
             p = os.path.join(sc.work, "REC." + name)
             got = [unhx(l.split()[1]) for l in open(p).read().splitlines() if l.startswith("IP ")] if os.path.exists(p) else None
             procname = sp.nodes[node][1].name
